@@ -13,5 +13,23 @@ int main(void) {
   int ok = 1;
   for (int k = 0; k < 4; ++k) ok &= c->s2l_pow_red[k] == (uint64_t)((((unsigned __int128)1) << 32) % q[k]) && c->s2h_pow_red[k] == (uint64_t)((((unsigned __int128)1) << (32 + c->h)) % q[k]);
   printf("OBLIGATION bbc_table_wf %s s2l_pow_red == 2^32 mod q, s2h_pow_red == 2^(32+h) mod q, h=%lu (real constructor, this machine)\n", ok ? "OK" : "FAIL", c->h);
+  // a*a and b*b tables: the well-formedness the range contracts baa_ref__c / bbb_ref__c take as preconditions
+  typedef unsigned __int128 u128;
+  int oka = 1, okb = 1;
+  for (int k = 0; k < 4; ++k) oka &= a->h_pow_red[k] == (uint64_t)((((u128)1) << a->h) % q[k]);
+  printf("OBLIGATION baa_table_wf %s h_pow_red == 2^h mod q, h=%lu (real constructor)\n", oka ? "OK" : "FAIL", a->h);
+  for (int k = 0; k < 4; ++k) {
+    okb &= b->s1h_pow_red[k] == ((uint64_t)1 << b->h);
+    okb &= b->s2l_pow_red[k] == (uint64_t)((((u128)1) << 32) % q[k]) && b->s2h_pow_red[k] == (uint64_t)((((u128)1) << (32 + b->h)) % q[k]);
+    okb &= b->s3l_pow_red[k] == (uint64_t)((((u128)1) << 64) % q[k]) && b->s3h_pow_red[k] == (uint64_t)((((u128)1) << (64 + b->h)) % q[k]);
+    okb &= b->s4l_pow_red[k] == (uint64_t)((((u128)1) << 96) % q[k]) && b->s4h_pow_red[k] == (uint64_t)((((u128)1) << (96 + b->h)) % q[k]);
+  }
+  printf("OBLIGATION bbb_table_wf %s s1h == 2^h, s2l..s4h == 2^(32|64|96 [+h]) mod q, h=%lu (real constructor)\n", okb ? "OK" : "FAIL", b->h);
+  // AVX2 a*a product: the final _mm256_mul_epu32(acc2, H_POW_RED) multiplies the LOW 32 bits of each lane: with
+  // acc2 <= MAX_ELL * (2^(64-h) - 1) (the bound proved for the reference loop, same recurrence) nothing is truncated iff this fits 32 bits
+  u128 acc2max = (u128)MAX_ELL * ((((u128)1) << (64 - a->h)) - 1);
+  int okt = acc2max < (((u128)1) << 32);
+  for (int k = 0; k < 4; ++k) okt &= a->h_pow_red[k] < ((uint64_t)1 << 32);
+  printf("OBLIGATION baa_avx2_mul_epu32_operands_fit_32_bits %s MAX_ELL*(2^(64-h)-1) = %lu and h_pow_red below 2^32 (h=%lu)\n", okt ? "OK" : "FAIL", (uint64_t)acc2max, a->h);
   return 0;
 }
